@@ -18,7 +18,7 @@ TOPOS = [('pack:1 core:4 pu:2', 8, 4, 5), ('pack:2 core:2 pu:2', 8, 4, 2), ('pac
          ('pack:1 core:1 pu:1', 1, 1, 1), ('pack:1 core:6 pu:1', 6, 6, 2), ('pack:1 core:3 pu:4', 12, 3, 1)]
 
 VALUES = {
-    'threads': [('1', 4), ('2', 5), ('3', 4), ('4', 4), ('all', 3), ('cores', 3), ('0', 2), ('abc', 1), ('8', 1), ('9', 1),
+    'threads': [('1', 4), ('2', 5), ('3', 4), ('4', 4), ('all', 4), ('cores', 4), ('0', 2), ('abc', 1), ('8', 1), ('9', 1),
                 ('6', 1), ('2x', 1), ('12', 1), ('13', 1)],
     'cores': [('1', 3), ('2', 3), ('all', 2), ('4', 2), ('abc', 1), ('3', 1)],
     'scheduler': [('local', 3), ('local-priority-fifo', 3), ('local-priority-lifo', 3), ('static', 3), ('static-priority', 3),
